@@ -607,6 +607,128 @@ func vwInverse(m map[string]string) map[string]string {
 	return r
 }
 
+
+// ---------------- every path to a namespace field, one at a time ----------------
+type vwStep struct {
+	fd   protoreflect.FieldDescriptor
+	blob bool // the field is an event blob: the path continues inside a HistoryEvent of that blob
+}
+
+// vwNsPaths enumerates the paths from a message type to every namespace field reachable from it (through singular,
+// repeated and map-valued message fields, oneof alternatives and event blobs); a message type occurs at most `limit`
+// times on one path (failure cause chains: twice).
+func vwNsPaths(md protoreflect.MessageDescriptor, onPath map[protoreflect.FullName]int, depth int, prefix []vwStep, out *[][]vwStep) {
+	if depth <= 0 || md.FullName() == "google.protobuf.Any" {
+		return
+	}
+	limit := 1
+	if md.FullName() == "temporal.api.failure.v1.Failure" {
+		limit = 2
+	}
+	if onPath[md.FullName()] >= limit {
+		return
+	}
+	onPath[md.FullName()]++
+	defer func() { onPath[md.FullName()]-- }()
+	fds := md.Fields()
+	for i := 0; i < fds.Len(); i++ {
+		fd := fds.Get(i)
+		here := append(append([]vwStep{}, prefix...), vwStep{fd: fd})
+		switch {
+		case vwIsNamespaceField(fd):
+			*out = append(*out, here)
+		case vwIsEventBlobField(fd):
+			here[len(here)-1].blob = true
+			evd := (&historypb.HistoryEvent{}).ProtoReflect().Descriptor()
+			vwNsPaths(evd, onPath, depth-1, here, out)
+		case fd.IsMap():
+			if fd.MapValue().Message() != nil {
+				vwNsPaths(fd.MapValue().Message(), onPath, depth-1, here, out)
+			}
+		case fd.Message() != nil:
+			vwNsPaths(fd.Message(), onPath, depth-1, here, out)
+		}
+	}
+}
+
+// vwBuildPath builds, inside m, the minimal message in which the namespace field at the end of path holds name.
+func vwBuildPath(m protoreflect.Message, path []vwStep, name string) {
+	st := path[0]
+	fd := st.fd
+	if len(path) == 1 {
+		m.Set(fd, protoreflect.ValueOfString(name))
+		return
+	}
+	if m.Descriptor().FullName() == "temporal.api.history.v1.HistoryEvent" {
+		ev := m.Interface().(*historypb.HistoryEvent)
+		if et, ok := vwEventTypeOf(fd); ok && fd.ContainingOneof() != nil {
+			ev.EventType = et
+		} else if ev.EventType == enumspb.EVENT_TYPE_UNSPECIFIED {
+			ev.EventType = enumspb.EVENT_TYPE_WORKFLOW_EXECUTION_SIGNALED
+		}
+		ev.EventId = 7
+	}
+	if st.blob {
+		ev := &historypb.HistoryEvent{}
+		vwBuildPath(ev.ProtoReflect(), path[1:], name)
+		if ev.EventType == enumspb.EVENT_TYPE_UNSPECIFIED {
+			ev.EventType = enumspb.EVENT_TYPE_WORKFLOW_EXECUTION_SIGNALED
+		}
+		b, err := vwSerializer.SerializeEvents([]*historypb.HistoryEvent{ev})
+		if err != nil {
+			panic(err)
+		}
+		if fd.IsList() {
+			m.Mutable(fd).List().Append(protoreflect.ValueOfMessage(b.ProtoReflect()))
+		} else {
+			m.Set(fd, protoreflect.ValueOfMessage(b.ProtoReflect()))
+		}
+		return
+	}
+	switch {
+	case fd.IsMap():
+		mp := m.Mutable(fd).Map()
+		sub := mp.NewValue().Message()
+		vwBuildPath(sub, path[1:], name)
+		var key protoreflect.MapKey
+		switch fd.MapKey().Kind() {
+		case protoreflect.StringKind:
+			key = protoreflect.ValueOfString("k").MapKey()
+		case protoreflect.BoolKind:
+			key = protoreflect.ValueOfBool(true).MapKey()
+		case protoreflect.Int32Kind, protoreflect.Sint32Kind, protoreflect.Sfixed32Kind:
+			key = protoreflect.ValueOfInt32(1).MapKey()
+		case protoreflect.Uint32Kind, protoreflect.Fixed32Kind:
+			key = protoreflect.ValueOfUint32(1).MapKey()
+		case protoreflect.Uint64Kind, protoreflect.Fixed64Kind:
+			key = protoreflect.ValueOfUint64(1).MapKey()
+		default:
+			key = protoreflect.ValueOfInt64(1).MapKey()
+		}
+		mp.Set(key, protoreflect.ValueOfMessage(sub))
+	case fd.IsList():
+		l := m.Mutable(fd).List()
+		sub := l.NewElement().Message()
+		vwBuildPath(sub, path[1:], name)
+		l.Append(protoreflect.ValueOfMessage(sub))
+	default:
+		sub := m.Mutable(fd).Message()
+		vwBuildPath(sub, path[1:], name)
+	}
+}
+
+func vwPathString(path []vwStep) string {
+	var parts []string
+	for _, st := range path {
+		n := string(st.fd.Name())
+		if st.blob {
+			n += "{events}"
+		}
+		parts = append(parts, n)
+	}
+	return strings.Join(parts, ".")
+}
+
 // TestVerifWalker: VERIF_SEED, VERIF_CASES (per root type), VERIF_MODE = ns | sa | acl | all ; one line per disagreement.
 func TestVerifWalker(t *testing.T) {
 	_, w, done := verifIO(t)
@@ -622,6 +744,45 @@ func TestVerifWalker(t *testing.T) {
 	logger := log.NewNoopLogger()
 	roots := vwRoots()
 	stats := map[string]int{}
+	if mode == "paths" {
+		// every path to a namespace field of every root type, one message per path: the name there must be translated
+		// (C12) and, for requests, a forbidden name there must be refused (C16)
+		nsMap := map[string]string{"orig": "orig.cloud"}
+		for _, root := range roots {
+			var paths [][]vwStep
+			vwNsPaths(root.desc, map[protoreflect.FullName]int{}, 9, nil, &paths)
+			for pi, path := range paths {
+				id := fmt.Sprintf("%s#p%d", root.full, pi)
+				if only != "" && only != id {
+					continue
+				}
+				stats["paths"]++
+				msg := vwNew(root.full)
+				vwBuildPath(msg.ProtoReflect(), path, "orig")
+				real, ref := proto.Clone(msg), proto.Clone(msg)
+				_, err := visitNamespace(logger, real, createStringMatcher(nsMap))
+				r := &vwRef{ns: nsMap}
+				r.walk(ref.ProtoReflect())
+				if err != nil {
+					fmt.Fprintf(w, "PATH %s %s ERROR %v\n", id, vwPathString(path), err)
+				} else if !r.matched {
+					fmt.Fprintf(w, "PATH %s %s UNREACHED-BY-REFERENCE\n", id, vwPathString(path))
+				} else if d := vwDiff(real, ref); d != "" {
+					fmt.Fprintf(w, "PATH %s %s DIFF %s\n", id, vwPathString(path), d)
+				}
+				if root.isReq {
+					bad := vwNew(root.full)
+					vwBuildPath(bad.ProtoReflect(), path, "forbidden-ns")
+					// every other (unset) namespace position is empty: use a list that also admits the empty name's refusal
+					got, aerr := isNamespaceAccessAllowed(logger, bad, auth.NewAccesControl([]string{"orig"}))
+					stats["acl_paths"]++
+					if aerr == nil && got {
+						fmt.Fprintf(w, "PATHACL %s %s forbidden name admitted\n", id, vwPathString(path))
+					}
+				}
+			}
+		}
+	}
 	for ri, root := range roots {
 		for c := 0; c < cases; c++ {
 			id := fmt.Sprintf("%s#%d", root.full, c)
